@@ -288,3 +288,7 @@ def run_case(case, ctx):
                              full_slots, unit)
         if not ctx.violations and g["kind"] not in ("longrun",) and disk.size < (64 << 20):
             recheck_after_failure(ctx, case, v.read_sectors, v, disk, sreqs, reqs, subject)
+            ext = getattr(v, "disks", [None])[0]
+            if not ctx.violations and len(getattr(v, "disks", [])) == 1 and getattr(ext, "sector_offset", 1) == 0:
+                # the same through the extent object's own read_sectors (it does not clamp requests to its capacity)
+                recheck_after_failure(ctx, dict(case, through_extent=True), ext.read_sectors, v, disk, sreqs, reqs, subject + ".extent")
